@@ -45,20 +45,20 @@ type frame struct {
 }
 
 type Access struct {
-	Fn       *ssa.Function
-	Instr    ssa.Instruction
-	Kind     string   // R (Get/Has), W (Set), D (Delete), I (iterate)
-	Families []string // resolved families; contains "?…" entries when undecided
-	ViaIterKey bool   // key is iterator.Key() of the same family
-	CondParam  int    // >0: executed only when bool parameter #CondParam (SSA index) is true; 0: unconditional
+	Fn         *ssa.Function
+	Instr      ssa.Instruction
+	Kind       string   // R (Get/Has), W (Set), D (Delete), I (iterate)
+	Families   []string // resolved families; contains "?…" entries when undecided
+	ViaIterKey bool     // key is iterator.Key() of the same family
+	CondParam  int      // >0: executed only when bool parameter #CondParam (SSA index) is true; 0: unconditional
 }
 
 type Resolver struct {
-	w        *World
-	initOf   map[*ssa.Global]ssa.Value
-	visiting map[string]bool
+	w             *World
+	initOf        map[*ssa.Global]ssa.Value
+	visiting      map[string]bool
 	closureParent map[*ssa.Function]*ssa.MakeClosure
-	constNames map[string]string // "mod:0x03" -> constant name
+	constNames    map[string]string // "mod:0x03" -> constant name
 }
 
 func newResolver(w *World) *Resolver {
@@ -526,10 +526,10 @@ func (r *Resolver) iterLead(it ssa.Value, fr *frame, depth int, seen map[ssa.Val
 // ---------------------------------------------------------------------------
 
 type storeInfo struct {
-	Mod      string
-	Raw      bool   // raw module store (no prefix.NewStore around it)
-	Prefix   []Lead // when !Raw
-	Unknown  string
+	Mod     string
+	Raw     bool   // raw module store (no prefix.NewStore around it)
+	Prefix  []Lead // when !Raw
+	Unknown string
 }
 
 func (r *Resolver) storeOf(v ssa.Value, fr *frame, depth int, seen map[ssa.Value]bool) []storeInfo {
@@ -867,10 +867,10 @@ type Effects struct {
 	w      *World
 	R      *Resolver
 	Direct map[*ssa.Function][]Access
-	Sum    map[*ssa.Function]map[string]bool // "W dogfood:0x03"
-	Own    map[*ssa.Function]map[string]bool // unconditional direct effects (incl. external table)
+	Sum    map[*ssa.Function]map[string]bool         // "W dogfood:0x03"
+	Own    map[*ssa.Function]map[string]bool         // unconditional direct effects (incl. external table)
 	Cond   map[*ssa.Function]map[int]map[string]bool // direct effects executed only if bool param #i is true
-	From   map[*ssa.Function]map[string]bool // effects inherited from callees
+	From   map[*ssa.Function]map[string]bool         // effects inherited from callees
 	// CBParams: functions that invoke one of their own func-typed parameters
 	// (Iterate*-style helpers): parameter index -> true. The callback's effects are
 	// attributed to each caller's actual argument, not to the helper.
